@@ -54,7 +54,7 @@ fn payload(i: usize, size: usize) -> Vec<Vec<u8>> {
     }
 }
 
-fn slow_world(ctx: &mut Ctx) {
+pub fn slow_world(ctx: &mut Ctx) {
     let kind = if ctx.idx % 2 == 0 { Kind::Pub } else { Kind::Xpub };
     world::swarm(ctx, SwarmOpts { tiny_chunks: false, small_caps: false, ..Default::default() });
     let m = 3 + ctx.plan(10) as usize;
